@@ -44,7 +44,7 @@ type Work struct {
 	CtxMode int    `json:"ctx_mode,omitempty"` // 0 simulated cancellable context, 1 context.Background(), 2 vm.Execute (no context argument)
 }
 
-const nSites = 90
+const nSites = 97
 const nWraps = 7
 
 func siteSrc(k int, id string) string {
@@ -228,8 +228,23 @@ func siteSrc(k int, id string) string {
 		return "d" + id + " = hid(1.5)\nx" + id + " = d" + id + " * 2 + 1\ny" + id + " = d" + id + " / 0\nz" + id + " = -d" + id + "\nw" + id + " = 7 % hid(0)"
 	case 88:
 		return "q" + id + " = hf()\ngo q" + id + "()\ndefer q" + id + "()"
-	default:
+	case 89:
 		return "pp" + id + " = new(*int64)\nx" + id + " = **pp" + id + "\n**pp" + id + " = h(" + id + ")"
+	case 90:
+		return "a" + id + " = new(struct { I interface })\na" + id + ".I = [h(" + id + ")]\nm" + id + " = {}\nm" + id + "[*a" + id + "] = 1"
+	case 91:
+		return "a" + id + " = make(struct { I interface })\na" + id + ".I = {\"k\": h(" + id + ")}\nm" + id + " = {a" + id + ": 1}\nx" + id + " = m" + id + "[a" + id + "]\ndelete(m" + id + ", a" + id + ")"
+	case 92:
+		return "m" + id + " = {}\nm" + id + "[[h(" + id + ")]] = 1\nx" + id + " = m" + id + "[{}]\ndelete(m" + id + ", [1])"
+	case 93:
+		return "k" + id + " = make(map[interface]int64)\nk" + id + "[[hid(1)]] = h(" + id + ")\nk" + id + "[hid([1, 2])] = 2"
+	case 94:
+		// a field read through a valid pointer first, then through a nil pointer of the same type
+		return "p" + id + " = new(struct { A int64 })\np" + id + ".A = h(" + id + ")\nx" + id + " = p" + id + ".A\nl" + id + " = make([]*struct { A int64 }, 1)\ny" + id + " = l" + id + "[0].A"
+	case 95:
+		return "make(type S" + id + ", make(struct { A int64 }))\np" + id + " = new(S" + id + ")\nx" + id + " = p" + id + ".A + h(" + id + ")\ns" + id + " = make(struct { Q *S" + id + " })\ny" + id + " = s" + id + ".Q.A"
+	default:
+		return "p" + id + " = new(struct { A int64 })\nx" + id + " = p" + id + ".A\nl" + id + " = make([]*struct { A int64 }, 1)\nl" + id + "[0].A = h(" + id + ")"
 	}
 }
 
